@@ -22,14 +22,14 @@ import vlib
 PROPERTIES = ["C01", "C02", "C03", "C04", "C05", "C06", "C07", "C08", "C16"]
 SPEC = os.path.join(vlib.SPEC, "chain")
 
-BASE = dict(MinDeposit=2, BidMinDeposit=1, BidDepositChoices=[1], KeyChoices="NoKeys", AttrChoices="NoAttrs")
+BASE = dict(MinDeposit=2, BidMinDeposit=1, OrderMaxBids=20, BidDepositChoices=[1], KeyChoices="NoKeys", AttrChoices="NoAttrs")
 FAMILIES = {
     # one group: lifecycle / same-block histories
     "S": dict(BASE, Tenants=["t1"], Providers=["p1", "p2"], Auditors=[], DSeqs=[1, 2], GSeqs=[1], OSeqs=[1, 2, 3],
               GroupChoices="GroupChoicesS", DepositChoices=[2, 3], PriceChoices=[1, 2], AmountChoices=[1, 2],
               Versions=[1, 2], Gaps=[1, 2, 3], InitCoins=6),
     # two groups: concurrently open payments of different rates, weighted/even overdraft distribution
-    "A": dict(BASE, Tenants=["t1"], Providers=["p1", "p2", "p3"], Auditors=[], DSeqs=[1], GSeqs=[1, 2], OSeqs=[1, 2],
+    "A": dict(BASE, OrderMaxBids=1, Tenants=["t1"], Providers=["p1", "p2", "p3"], Auditors=[], DSeqs=[1], GSeqs=[1, 2], OSeqs=[1, 2],
               GroupChoices="GroupChoicesA", DepositChoices=[2, 3, 5, 7], PriceChoices=[1, 2, 3], AmountChoices=[1, 3],
               Versions=[1], Gaps=[1, 2, 4], InitCoins=12),
     # two tenants x two deployments with colliding sequence numbers: frame conditions
@@ -99,6 +99,7 @@ def escrow_cfg(fam, sim, depth):
     lines.append("  ProvRank <- ProvRankDef")
     for k in ("MinDeposit", "BidMinDeposit", "InitCoins"):
         lines.append("  %s = %d" % (k, c[k]))
+    lines.append("  OrderMaxBids = %d" % c.get("OrderMaxBids", 20))
     lines.append("  MaxHeight = %d" % (1000 if sim else c["MaxHeight"]))
     lines.append("  MaxSteps = %d" % (depth if sim else 80))
     lines.append("  OnlyOK = %s" % ("TRUE" if sim else "FALSE"))
@@ -119,7 +120,7 @@ def mc_cfg(fam, sim, depth):
     for k in ("GroupChoices", "AttrChoices", "KeyChoices"):
         lines.append("  %s <- %s" % (k, c[k]))
     lines.append("  ProvRank <- ProvRankDef")
-    for k in ("MinDeposit", "BidMinDeposit", "InitCoins"):
+    for k in ("MinDeposit", "BidMinDeposit", "InitCoins", "OrderMaxBids"):
         lines.append("  %s = %d" % (k, c[k]))
     lines.append("  MaxHeight = %d" % (1000 if sim else c["MaxHeight"]))
     lines.append("  MaxSteps = %d" % (depth if sim else 60))
@@ -138,7 +139,8 @@ def trace_cfg(fam, which):
            "WHICH": which}
     for k, v in rep.items():
         t = t.replace("{%s}" % k, tla_set(v))
-    return t.replace("BIDMINDEP", str(c["BidMinDeposit"])).replace("MINDEP", str(c["MinDeposit"]))
+    return (t.replace("BIDMINDEP", str(c["BidMinDeposit"])).replace("MINDEP", str(c["MinDeposit"]))
+            .replace("ORDERMAXBIDS", str(c.get("OrderMaxBids", 20))))
 
 
 _LINE = re.compile(r'^<<"(NODE|ALPHABET)", "(.*?)"(?:, "OK", "(.*)")?>>$')
@@ -184,7 +186,7 @@ def j1(fam, sim, seed, num, depth, timeout):
 def run_harness(vh, fam, work, nodes, alpha, expand, seed, shards, reps):
     c = FAMILIES[fam]
     wcfg = dict(tenants=c["Tenants"], providers=c["Providers"], auditors=c["Auditors"], initCoins=c["InitCoins"],
-                minDeposit=c["MinDeposit"], bidMinDeposit=c["BidMinDeposit"])
+                minDeposit=c["MinDeposit"], bidMinDeposit=c["BidMinDeposit"], orderMaxBids=c.get("OrderMaxBids", 20))
     json.dump(wcfg, open(os.path.join(work, "world.json"), "w"))
     # every shard gets its own slice of the exported states (a path carries its ancestors), so no process holds them all
     for i in range(shards):
